@@ -504,7 +504,12 @@ where
             let ping_out = self.zmtp_engine.on_tick(std::time::Instant::now());
             for action in ping_out.net_actions {
               if let NetAction::Send { data, .. } = action {
-                egress_buffer.push_priority(data);
+                // A sealed record may not overtake records sealed before it (nonce order).
+                if self.zmtp_engine.emits_plain_frames() {
+                  egress_buffer.push_priority(data);
+                } else {
+                  egress_buffer.push(data, 0);
+                }
               }
             }
             for action in ping_out.app_actions {
@@ -548,7 +553,12 @@ where
                 for action in engine_out.net_actions {
                   match action {
                     NetAction::Send { data, .. } => {
-                      egress_buffer.push_priority(data);
+                      // A sealed record may not overtake records sealed before it (nonce order).
+                      if self.zmtp_engine.emits_plain_frames() {
+                        egress_buffer.push_priority(data);
+                      } else {
+                        egress_buffer.push(data, 0);
+                      }
                     }
                     NetAction::SetCork(enable) => {
                       #[cfg(target_os = "linux")]
